@@ -38,7 +38,7 @@ m = {
     ],
     "checks": checks,
     "not_applicable": [{"property_id": k, "reason": v} for k, v in na.items() if k not in cfg],
-    "notes": "See DESIGN.md. Exit 2 (UNDECIDED) is used for lost anchors / unsupported constructs / solver limits / failures of functions that lost proof help or call contract-less helpers, and is never a VIOLATION. seeded/ holds 175 confirmed property-breaking changes (seeded/RESULTS.md: 165 detected, 9 undecided, 1 seen only by the thorough tier), benign/ 97 behaviour-preserving ones (benign/RESULTS.md: 582 check runs, no alarm). assumptions.allow.json is the committed list of assumed items per unit; `./check --assumptions-audit` compares it with the current tree.",
+    "notes": "See DESIGN.md. Exit 2 (UNDECIDED) is used for lost anchors / unsupported constructs / solver limits / failures of functions that lost proof help or call contract-less helpers, and is never a VIOLATION. seeded/ holds 177 confirmed property-breaking changes (seeded/RESULTS.md: 167 detected, 9 undecided, 1 seen only by the thorough tier), benign/ 97 behaviour-preserving ones (benign/RESULTS.md: 582 check runs, no alarm). assumptions.allow.json is the committed list of assumed items per unit; `./check --assumptions-audit` compares it with the current tree.",
 }
 json.dump(m, open(os.path.join(ROOT, "MANIFEST.json"), "w"), indent=1)
 print("claimed:", [c["property_id"] for c in checks], "n/a:", [x["property_id"] for x in m["not_applicable"]])
